@@ -10,6 +10,7 @@ Inputs: `document q attrs kids` = START q, ATTR*, content, END q  (`Content` = f
 -/
 import XsdataModel.Proofs.Shape
 import XsdataModel.Proofs.Escape
+import XsdataModel.Proofs.QNameScope
 
 namespace Props.C03
 open Py Xs.Ns Xs.Sax Xs.Writer Spec.XmlNs Spec.EventTree Spec.Hyps
@@ -377,6 +378,83 @@ theorem qname_value_resolves (d : Option Str) (t u l : Str) (M : NsMap)
 example : Proofs.MapInv.MapOK tblNsEnv (userDefault [(some ['p'], urnB)]) (serializerNsMap [(some ['p'], urnB)])
     ∧ clark (inB ['T']) = some (some urnB, ['T']) ∧ uriOK urnB = true :=
   ⟨Proofs.UserMap.userMapOK_MapOK tblNsEnv _ (by decide +kernel), by decide +kernel, by decide +kernel⟩
+
+/-- **qname_value_resolves_in_scope (partial)** — gap 7, one element: the text
+`QNameConverter.serialize` gives a QName value with a declarable namespace (`xsi:type="p:T"`)
+resolves to that QName *in the namespace scope the XML reader has for the element* — or it is the
+bare local name (the namespace was the default of the map at that moment: the region of the
+findings c03-qname-default-ns / -reset).  `M1`: the element's prefix map when the attribute arrives,
+`M'`: the map after the remaining attributes (`Ext`), `flushed … M'`: what `flush_start` makes of it
+(`add_namespace` for the attribute names, default-namespace reset), `S`: the reader's in-scope
+bindings of the element — `ScopeEq S (flushed …).map` is what the L2 proof establishes for the frame
+the reader pushes (`Proofs.QNameScope.open_elem_qname` states it for the written tokens).
+Not yet threaded through the whole document (`infoset` keeps attribute values as text). -/
+theorem qname_value_resolves_in_scope_partial (d : Option Str) (t u l : Str) (M1 : NsMap)
+    (hM1 : Proofs.MapInv.MapOK tblNsEnv d M1) (ht : clark t = some (some u, l)) (hu : uriOK u = true)
+    (M' : NsMap) (hM' : Proofs.MapInv.MapOK tblNsEnv d M') (A : Proofs.TreeWriter.Attrs)
+    (hA : Proofs.Resolve.AttrsOK d A) (isNil : Bool) (base : NsMap) (tag : EName) (S : List (Pfx × Str))
+    (hS : Proofs.Flush.ScopeEq S (Proofs.TreeWriter.flushed tblNsEnv isNil base tag A M').map) :
+    ∃ s M1', serializeQName tblNsEnv t M1 = .ok (s, M1') ∧
+      (Proofs.MapInv.Ext M1' M' → s = l ∨ resolveElem S s = some (some u, l)) := by
+  have henv := Proofs.MapInv.envOK_sound _ tables_ok
+  obtain ⟨s, M1', h1, _, _, h4⟩ := Proofs.QNameScope.serializeQName_bound tblNsEnv henv d t u l M1 hM1 ht hu
+  refine ⟨s, M1', h1, fun hext => ?_⟩
+  rcases h4 with h | h
+  · exact Or.inl h
+  · exact Or.inr (((h.ext hext).atFlush tblNsEnv henv d hM' isNil base tag A hA).resolves
+      (Proofs.MapInv.clark_some_ns t u l ht).2 S hS)
+
+/-- the hypotheses are satisfiable: an `xsi:type` value in `urn:b`, a user map binding `p` to it, no
+other attribute; the scope is the flushed map itself -/
+example : Proofs.MapInv.MapOK tblNsEnv (userDefault [(some ['p'], urnB)]) (serializerNsMap [(some ['p'], urnB)])
+    ∧ clark (inB ['T']) = some (some urnB, ['T']) ∧ uriOK urnB = true
+    ∧ Proofs.Resolve.AttrsOK (userDefault [(some ['p'], urnB)]) []
+    ∧ Proofs.Flush.ScopeEq
+        (Proofs.TreeWriter.flushed tblNsEnv false [] (none, ['R']) [] (serializerNsMap [(some ['p'], urnB)])).map
+        (Proofs.TreeWriter.flushed tblNsEnv false [] (none, ['R']) [] (serializerNsMap [(some ['p'], urnB)])).map :=
+  ⟨Proofs.UserMap.userMapOK_MapOK tblNsEnv _ (by decide +kernel), by decide +kernel, by decide +kernel,
+   Proofs.Resolve.AttrsOK.nil _, fun _ => rfl⟩
+
+/-- … and the conclusion evaluated there: `p:T` resolves to `{urn:b}T` -/
+example : resolveElem (Proofs.TreeWriter.flushed tblNsEnv false [] (none, ['R']) [] (serializerNsMap [(some ['p'], urnB)])).map
+    ['p', ':', 'T'] = some (some urnB, ['T']) := by decide +kernel
+
+/-- **root_qname_values_resolve (partial)** — gap 7 for the document element, hypotheses on the
+inputs: for every user prefix map in `userMapOK`, root element name and attributes in
+`elemNameOK` / `attrOK`, the start tag the native writer writes for the root (`XMLGenerator`'s
+token for the handler's calls, whatever `is_nil`) opens a namespace scope in which the text `s` of each
+QName-valued attribute (`xsi:type` of a `DerivedElement` root, a QName-typed attribute; the value the
+writer reads as a QName, `xsiTypeValue`) with a namespace resolves to that QName — or `s` is the bare
+local name (the namespace is the default of the map: findings c03-qname-default-ns / -reset).
+(`ha`: the handler's attribute loop ran, cf. `treeWriterDefined`.) -/
+theorem root_qname_values_resolve_partial (m : List (Pfx × Str)) (hm : userMapOK tblNsEnv m = true)
+    (q : Str) (attrs : List (Str × Val))
+    (hname : elemNameOK q = true) (hattrs : attrs.all (attrOK tblNsEnv (userDefault m)) = true)
+    (tag : EName) (hq : splitQName q = .ok tag) (M2 : NsMap) (A : Proofs.TreeWriter.Attrs)
+    (ha : Proofs.TreeWriter.attrsRun tblNsEnv attrs (addNamespace tblNsEnv tag.1 (serializerNsMap m)) [] = some (M2, A))
+    (pre post : List (Str × Val)) (qa : Str) (v : Val) (t u l : Str)
+    (hsplit : attrs = pre ++ (qa, v) :: post)
+    (hv : xsiTypeValue tblNsEnv qa v = .atom (.qname t)) (ht : clark t = some (some u, l)) (isNil : Bool) :
+    ∃ s w ws vs scope' decls g',
+      gRun tblNsEnv.saxXmlNs GState.init (Proofs.TreeWriter.flushed tblNsEnv isNil [] tag A M2).calls
+        = .ok ([Tok.open_ w decls ws], g')
+      ∧ pStep ⟨[], none, false⟩ (Tok.open_ w decls ws) = some ⟨[⟨w, tag, vs, [], scope'⟩], none, false⟩
+      ∧ (s = l ∨ resolveElem scope' s = some (some u, l)) :=
+  Proofs.QNameScope.root_qname_scope tblNsEnv tables_ok m hm q attrs hname hattrs tag hq M2 A ha pre post qa v t u l
+    hsplit hv ht isNil
+
+/-- the hypotheses are satisfiable: root `{urn:a}R` with `xsi:type = {urn:b}T` under a user map with a
+default namespace and an unrelated prefix -/
+example :
+    let m : List (Pfx × Str) := [(none, urnA), (some ['z'], urnX)]
+    let attrs : List (Str × Val) := [(Tables.qnXsiType, .atom (.qname (inB ['T'])))]
+    userMapOK tblNsEnv m = true ∧ elemNameOK (inA ['R']) = true
+    ∧ attrs.all (attrOK tblNsEnv (userDefault m)) = true
+    ∧ (∃ tag M2 A, splitQName (inA ['R']) = .ok tag
+        ∧ Proofs.TreeWriter.attrsRun tblNsEnv attrs (addNamespace tblNsEnv tag.1 (serializerNsMap m)) [] = some (M2, A))
+    ∧ xsiTypeValue tblNsEnv Tables.qnXsiType (.atom (.qname (inB ['T']))) = .atom (.qname (inB ['T']))
+    ∧ clark (inB ['T']) = some (some urnB, ['T']) := by
+  refine ⟨by decide +kernel, by decide +kernel, by decide +kernel, ⟨_, _, _, rfl, rfl⟩, rfl, by decide +kernel⟩
 
 /-- the cleaned user map satisfies the invariant whenever it passes the decidable check -/
 theorem user_map_invariant (m : List (Pfx × Str)) (hm : userMapOK tblNsEnv m = true) :
